@@ -155,25 +155,31 @@ def mkCond (db : Db) (k : Py.Str) (neg : Bool) (vals : List Val) : Except Err Sq
   | some c => .ok { col := c, neg := neg, vals := vals }
   | none => .error .operational
 
+/-- `isinstance(v, list) and len(v) > max_sql_values` -/
+def isLong : Arg → Bool
+  | .list vs => vs.length > Gen.max_sql_values
+  | .scalar _ => false
+
+/-- the values bound for one condition: `int(v + 1)` on rowID conditions (list and scalar branch alike) -/
+def scanVals (k : Py.Str) (vs : List Val) : Except Err (List Val) :=
+  if k = rowIDName then vs.mapM pyIntPlus1 else .ok vs
+
 def scan (db : Db) : List Kw → Except Err Scan
   | [] => .ok (.conds [] 0)
   | kw :: rest =>
     let nk := stripNo kw.key
-    match kw.arg with
-    | .list vs =>
-      if vs.length > Gen.max_sql_values then .ok (.long 0 kw.key nk.1 vs)
-      else do
-        let vals ← if nk.2 = rowIDName then vs.mapM pyIntPlus1 else pure vs
-        let c ← mkCond db nk.2 nk.1 vals
-        match ← scan db rest with
-        | .conds cs n => pure (.conds (c :: cs) (vs.length + n))
-        | .long i k ng l => pure (.long (i + 1) k ng l)
-    | .scalar v => do
-        let v' ← if nk.2 = rowIDName then pyIntPlus1 v else pure v
-        let c ← mkCond db nk.2 nk.1 [v']
-        match ← scan db rest with
-        | .conds cs n => pure (.conds (c :: cs) (1 + n))
-        | .long i k ng l => pure (.long (i + 1) k ng l)
+    if isLong kw.arg then .ok (.long 0 kw.key nk.1 kw.arg.vals)
+    else
+      match scanVals nk.2 kw.arg.vals with
+      | .error e => .error e
+      | .ok vals =>
+        match mkCond db nk.2 nk.1 vals with
+        | .error e => .error e
+        | .ok c =>
+          match scan db rest with
+          | .error e => .error e
+          | .ok (.conds cs n) => .ok (.conds (c :: cs) (kw.arg.vals.length + n))
+          | .ok (.long i k ng l) => .ok (.long (i + 1) k ng l)
 
 /-- `data[i][index] -= 1` -/
 def decr : Val → Val
@@ -219,7 +225,7 @@ def asData : Result → Except Err (List Item)
 def combine (neg : Bool) (rows : Option (List Int)) (index : List Int) : Option (List Int) :=
   match rows with
   | none => some index
-  | some rs => some (rs ++ index)
+  | some rs => some (if neg then rs.filter (fun i => index.contains i) else rs ++ index)
 
 def setKw (kw : List Kw) (idx : Nat) (key : Py.Str) (vc : List Val) : List Kw :=
   kw.set idx { key := key, arg := .list vc }
@@ -230,52 +236,89 @@ def validCols (db : Db) (columns : Py.Str) : Bool :=
 /-- `SELECT EXISTS(SELECT k FROM tablename)` does not raise -/
 def keyOK (db : Db) (tn : Py.Str) (k : Py.Str) : Bool := (findTab db tn).isSome && (sqlCol db k).isSome
 
+/-- the plain query once the conditions are built: combined-limit check, SELECT, tail of `get` -/
+def runQuery (db : Db) (columns tn : Py.Str) (conds : List SqlCond) (nvals : Nat) : Except Err Result :=
+  if nvals > Gen.SQLITE_LIMIT_VARIABLE_NUMBER then .error .tooManyVars
+  else match findTab db tn with
+    | none => .error .operational
+    | some tab =>
+      match sqlCols db columns with
+      | .error e => .error e
+      | .ok cols =>
+        match finish columns (sqlSelect db tab cols conds) with
+        | .error e => .error e
+        | .ok items => .ok (.data items)
+
+/-- the loop over the chunks of an over-long list: `rows` = rowIDs selected by the chunks so far -/
+def chunkLoop (recGet : List Kw → Except Err Result) (kw : List Kw) (idx : Nat) (key : Py.Str) (neg : Bool) :
+    List (List Val) → Option (List Int) → Except Err (Option (List Int))
+  | [], rows => .ok rows
+  | vc :: rest, rows =>
+    match recGet (setKw kw idx key vc) with
+    | .error e => .error e
+    | .ok r =>
+      match asInts r with
+      | .error e => .error e
+      | .ok index => chunkLoop recGet kw idx key neg rest (combine neg rows index)
+
+/-- the loop that fetches the data of the selected rows, `max_sql_values` rowIDs at a time -/
+def fetchLoop (recGet : List Kw → Except Err Result) (rowsKw : List Kw) :
+    List (List Int) → List Item → Except Err (List Item)
+  | [], data => .ok data
+  | c :: rest, data =>
+    match recGet ({ key := rowIDName, arg := .list (c.map Val.int) } :: rowsKw) with
+    | .error e => .error e
+    | .ok r =>
+      match asData r with
+      | .error e => .error e
+      | .ok d => fetchLoop recGet rowsKw rest (data ++ d)
+
+/-- the per-model loop -/
+def modelLoop (recGet : List Kw → Except Err Result) (kw : List Kw) : List Nat → Except Err (List (List Item))
+  | [] => .ok []
+  | m :: ms =>
+    match recGet (kw ++ [{ key := modelKey, arg := .scalar (.int m) }]) with
+    | .error e => .error e
+    | .ok r =>
+      match asData r with
+      | .error e => .error e
+      | .ok d =>
+        match modelLoop recGet kw ms with
+        | .error e => .error e
+        | .ok ds => .ok (d :: ds)
+
 /--
 `pdb2sql.get(columns, tablename, **kwargs)`, recursion bounded by `fuel` (every recursive call of the source
 is a call with `fuel - 1`).
 -/
 def getF : Nat → Db → Py.Str → Py.Str → List Kw → Except Err Result
   | 0, _, _, _, _ => .error .fuel
-  | fuel + 1, db, columns, tn, kw => do
+  | fuel + 1, db, columns, tn, kw =>
     -- check arguments format
-    if !validCols db columns then throw .valueError
+    if !validCols db columns then .error .valueError
     -- one answer per model
-    if !hasModelKey kw && db.nModel > 0 then
-      let per ← (List.range db.nModel).mapM (fun m => do
-        let r ← getF fuel db columns tn (kw ++ [{ key := modelKey, arg := .scalar (.int m) }])
-        asData r)
-      return .models per
-    if kw.isEmpty then
-      match findTab db tn with
-      | none => throw .operational
-      | some tab =>
-        let cols ← sqlCols db columns
-        return .data (← finish columns (sqlSelect db tab cols []))
+    else if !hasModelKey kw && db.nModel > 0 then
+      match modelLoop (fun kw' => getF fuel db columns tn kw') kw (List.range db.nModel) with
+      | .error e => .error e
+      | .ok per => .ok (.models per)
+    else if kw.isEmpty then runQuery db columns tn [] 0
+    -- check that all the keys exist
+    else if !kw.all (fun k => keyOK db tn (stripNo k.key).2) then .error .valueError
     else
-      -- check that all the keys exist
-      if !kw.all (fun k => keyOK db tn (stripNo k.key).2) then throw .valueError
-      match ← scan db kw with
-      | .conds conds n =>
-        if n > Gen.SQLITE_LIMIT_VARIABLE_NUMBER then throw .tooManyVars
-        match findTab db tn with
-        | none => throw .operational
-        | some tab =>
-          let cols ← sqlCols db columns
-          return .data (← finish columns (sqlSelect db tab cols conds))
-      | .long idx key neg vs =>
+      match scan db kw with
+      | .error e => .error e
+      | .ok (.conds conds n) => runQuery db columns tn conds n
+      | .ok (.long idx key neg vs) =>
         -- rows selected by each chunk together with the other conditions
-        let rows ← (chunks Gen.max_sql_values vs).foldlM (fun (rows : Option (List Int)) vc => do
-          let r ← getF fuel db rowIDName tn (setKw kw idx key vc)
-          let index ← asInts r
-          pure (combine neg rows index)) none
-        let sorted := sortDedup intLt (rows.getD [])
-        -- the data of these rows in the order of the table
-        let rowsKw := kw.filter (fun k => k.key = modelKey)
-        let data ← (chunks Gen.max_sql_values sorted).foldlM (fun (data : List Item) c => do
-          let r ← getF fuel db columns tn ({ key := rowIDName, arg := .list (c.map Val.int) } :: rowsKw)
-          let d ← asData r
-          pure (data ++ d)) []
-        return .data data
+        match chunkLoop (fun kw' => getF fuel db rowIDName tn kw') kw idx key neg (chunks Gen.max_sql_values vs) none with
+        | .error e => .error e
+        | .ok rows =>
+          let sorted := sortDedup intLt (rows.getD [])
+          -- the data of these rows in the order of the table
+          let rowsKw := kw.filter (fun k => k.key = modelKey)
+          match fetchLoop (fun kw' => getF fuel db columns tn kw') rowsKw (chunks Gen.max_sql_values sorted) [] with
+          | .error e => .error e
+          | .ok data => .ok (.data data)
 
 /-- enough fuel: one level per keyword (each level removes one over-long list), one for the per-model
     dispatch, one for the final query -/
